@@ -117,6 +117,8 @@ pub const C_DELIVERIES: usize = 16;
 pub const C_DELIVER_DEFAULT: usize = 17;
 pub const C_FORCED_FAIR: usize = 18;
 pub const C_QUIESCENT: usize = 19;
+pub const C_FLIP_WATCH: usize = 20;
+pub const C_STALLED_READER: usize = 21;
 pub const C_ENGINE_BASE: usize = 32;
 
 // ---------------------------------------------------------------------------------------------
@@ -285,13 +287,31 @@ pub struct Thread {
     pub handler_n: usize,
     last_sched: u64,
     prio: i64,
-    pub open_reads: Vec<(usize, u32)>,
+    /// open read sections: (snapshot ptr, handler depth, generation location, op-seq of the generation sample)
+    pub open_reads: Vec<(usize, u32, usize, u64)>,
+    sampling: Option<(usize, u64)>,
+    flip_watch: Option<FlipWatch>,
+    store_begin_seq: u64,
+    handler_entry_opseq: u64,
+    pub own_steps0: u64,
     pub name: &'static str,
     cas_spur_run: u32,
     pub in_store: u32,
     handler_entry_own: u64,
     held_mutexes: u32,
     last_alloc: usize,
+}
+
+/// C18: after the writer's generation switch at op-seq `flip`, the readers that can legitimately
+/// hold it up are those that sampled the generation before (`pending` of them are still inside).
+#[derive(Clone, Copy, Debug)]
+struct FlipWatch {
+    gen: usize,
+    flip: u64,
+    clean: bool,
+    pending: u32,
+    armed: bool,
+    own0_at_arm: u64,
 }
 
 #[derive(Clone, Copy)]
@@ -369,11 +389,20 @@ pub struct Sim {
     sig_hash: u64,
     swap_seen_open: bool,
     pub stop_inject: bool,
+    opseq: u64,
+    /// generation counter address -> (op-seq of the latest switch, op-seq of the latest close of a
+    /// late reader, op-seq since which samples of it are observed)
+    gen_locs: HashMap<usize, (u64, u64, u64)>,
     step_hook: Option<Box<dyn FnMut()>>,
     handler_step_limit: u64,
     limit_prop: String,
     forced: Option<(usize, u64, usize)>,
     pub auto_thaw: bool,
+    thread_panic_prop: Option<String>,
+    /// fault: stall one delivery that began after a writer's generation switch inside its read
+    /// section until that writer has finished (Some(remaining uses))
+    pub stall_later_reader: u32,
+    stalled_for: Option<(usize, usize)>,
     pub inject_at: Option<(usize, u64)>,
 }
 
@@ -406,11 +435,16 @@ pub fn init(mode: ChooserMode) {
         sig_hash: 0xcbf29ce484222325,
         swap_seen_open: false,
         stop_inject: false,
+        opseq: 0,
+        gen_locs: HashMap::new(),
         step_hook: None,
         handler_step_limit: 0,
         limit_prop: String::from("C03"),
         forced: None,
         auto_thaw: false,
+        thread_panic_prop: None,
+        stall_later_reader: 0,
+        stalled_for: None,
         inject_at: None,
     });
     unsafe {
@@ -674,6 +708,11 @@ impl Thread {
             last_sched: 0,
             prio,
             open_reads: Vec::new(),
+            sampling: None,
+            flip_watch: None,
+            store_begin_seq: 0,
+            handler_entry_opseq: 0,
+            own_steps0: 0,
             name,
             cas_spur_run: 0,
             in_store: 0,
@@ -991,6 +1030,25 @@ pub fn sp(kind: u16, addr: usize) {
     }
     s.steps += 1;
     s.threads[me].own_steps += 1;
+    if depth == 0 {
+        s.threads[me].own_steps0 += 1;
+        if let Some(wa) = s.threads[me].flip_watch {
+            if wa.armed && wa.clean && s.threads[me].own_steps0 - wa.own0_at_arm > 30 {
+                let d = s.describe();
+                report(
+                    "C18",
+                    "barrier-waits-for-later-readers",
+                    &format!(
+                        "every delivery that had sampled the generation before writer T{}'s generation switch has left its read section, yet the writer made {} more own steps inside the barrier without finishing: it is waiting for deliveries that began after the switch, so an unbounded stream of overlapping finite deliveries starves it: {}",
+                        me,
+                        s.threads[me].own_steps0 - wa.own0_at_arm,
+                        d
+                    ),
+                    true,
+                );
+            }
+        }
+    }
     s.hash_ev(me, kind, locid, depth);
     log(kind, locid as u64, 0);
     if s.steps > s.cfg.step_budget {
@@ -1148,6 +1206,14 @@ pub fn flush() {
     let _g = ShimGuard::new();
     flush_stats();
 }
+/// A panic that escapes a simulated thread is a violation of `prop` (default: harness error).
+pub fn set_thread_panic_prop(prop: &str) {
+    let _g = ShimGuard::new();
+    sim().thread_panic_prop = Some(prop.to_string());
+}
+pub fn set_stall_later_reader(n: u32) {
+    sim().stall_later_reader = n;
+}
 pub fn set_auto_thaw(b: bool) {
     sim().auto_thaw = b;
 }
@@ -1198,7 +1264,11 @@ pub fn spawn<F: FnOnce() + Send + 'static>(name: &'static str, f: F) -> usize {
         let r = std::panic::catch_unwind(std::panic::AssertUnwindSafe(f));
         let _g = ShimGuard::new();
         if r.is_err() {
-            harness_error(&format!("simulated thread {} ({}) panicked: {}", id, name, shm::get_str(&shm::get().panic_msg)));
+            let msg = format!("simulated thread {} ({}) panicked inside a library call: {}", id, name, shm::get_str(&shm::get().panic_msg));
+            if let Some(p) = sim().thread_panic_prop.clone() {
+                report(&p, "library-call-panicked", &msg, true);
+            }
+            harness_error(&msg);
         }
         let s = sim();
         s.threads[id].state = TState::Finished;
@@ -1376,6 +1446,11 @@ pub fn mm_load(addr: usize, ord: Ordering, current: u64) -> u64 {
     let _g = ShimGuard::new();
     let s = sim();
     let me = s.cur;
+    s.opseq += 1;
+    if s.gen_locs.contains_key(&addr) {
+        let q = s.opseq;
+        s.threads[me].sampling = Some((addr, q));
+    }
     s.ensure_init(addr, current);
     let wm = s.cfg.wm && !s.threads[me].spinning;
     let vc = s.threads[me].vc;
@@ -1603,6 +1678,8 @@ pub fn ev_snap_alloc(p: usize) {
     s.snaps.insert(p, Snapshot { id, live: true, open: 0, closes: Vec::new() });
     let me = s.cur;
     s.threads[me].last_alloc = p;
+    s.opseq += 1;
+    s.threads[me].store_begin_seq = s.opseq;
     if s.threads.iter().any(|t| !t.open_reads.is_empty()) {
         count(C_READ_ACROSS_SWAP, 1);
     }
@@ -1622,14 +1699,28 @@ pub fn ev_read_open(p: usize) {
                 violation("C01", "read-of-freed-snapshot", &format!("T{} opened a read section on snapshot #{} which had already been freed (step {})", me, id, s.steps));
             }
             sn.open += 1;
-            s.threads[me].open_reads.push((p, depth));
+            let (gl, gq) = s.threads[me].sampling.take().unwrap_or((0, 0));
+            s.threads[me].open_reads.push((p, depth, gl, gq));
+            if s.stall_later_reader > 0 && s.stalled_for.is_none() && gl != 0 && depth == 1 {
+                // is there a writer whose generation switch this reader came after?
+                let wr = (0..s.threads.len()).find(|t| *t != me && s.threads[*t].flip_watch.map(|wa| wa.clean && wa.gen == gl && gq > wa.flip).unwrap_or(false) && !s.threads[*t].frozen);
+                if let Some(wt) = wr {
+                    s.stall_later_reader -= 1;
+                    s.stalled_for = Some((me, wt));
+                    s.threads[me].frozen = true;
+                    count(C_FREEZE, 1);
+                    count(C_STALLED_READER, 1);
+                    log(EV_FREEZE, me as u64, 4);
+                }
+            }
         }
         None => {
             // snapshot allocated before the simulation started: adopt it
             let id = s.next_snap;
             s.next_snap += 1;
             s.snaps.insert(p, Snapshot { id, live: true, open: 1, closes: Vec::new() });
-            s.threads[me].open_reads.push((p, depth));
+            let (gl, gq) = s.threads[me].sampling.take().unwrap_or((0, 0));
+            s.threads[me].open_reads.push((p, depth, gl, gq));
             log(EV_READ_OPEN, id as u64, 1);
         }
     }
@@ -1641,8 +1732,39 @@ pub fn ev_read_close(p: usize) {
     let me = s.cur;
     s.threads[me].vc[me] += 1;
     let c = s.threads[me].vc[me];
-    if let Some(pos) = s.threads[me].open_reads.iter().rposition(|(q, _)| *q == p) {
-        s.threads[me].open_reads.remove(pos);
+    if let Some(pos) = s.threads[me].open_reads.iter().rposition(|(q, _, _, _)| *q == p) {
+        let (_, _, gl, gq) = s.threads[me].open_reads.remove(pos);
+        s.opseq += 1;
+        let now = s.opseq;
+        if gl == 0 {
+            // a section whose generation sample we did not see (it began before the generation
+            // counter's address was known): conservatively a late reader of every half-lock
+            for (_, v) in s.gen_locs.iter_mut() {
+                v.1 = now;
+            }
+        }
+        if gl != 0 {
+            if let Some((last_flip, stale_close, _)) = s.gen_locs.get_mut(&gl) {
+                if gq < *last_flip {
+                    // this reader sampled the generation before the latest switch
+                    *stale_close = now;
+                    let _ = stale_close;
+                }
+            }
+            // writers watching this reader
+            for t in 0..s.threads.len() {
+                let own0 = s.threads[t].own_steps0;
+                if let Some(wa) = s.threads[t].flip_watch.as_mut() {
+                    if wa.gen == gl && gq < wa.flip && wa.pending > 0 {
+                        wa.pending -= 1;
+                        if wa.pending == 0 {
+                            wa.armed = true;
+                            wa.own0_at_arm = own0;
+                        }
+                    }
+                }
+            }
+        }
     }
     if let Some(sn) = s.snaps.get_mut(&p) {
         log(EV_READ_CLOSE, sn.id as u64, 0);
@@ -1669,9 +1791,21 @@ pub fn ev_snap_free(p: usize) {
     if s.threads[me].in_store > 0 {
         s.threads[me].in_store -= 1;
     }
+    if let Some(wa) = s.threads[me].flip_watch.take() {
+        if wa.armed && wa.clean {
+            count(C_FLIP_WATCH, 1);
+        }
+    }
+    if let Some((rt, wt)) = s.stalled_for {
+        if wt == me {
+            s.threads[rt].frozen = false;
+            s.stalled_for = None;
+            log(EV_FREEZE, rt as u64, 5);
+        }
+    }
     let mut holders = String::new();
     for (i, t) in s.threads.iter().enumerate() {
-        for (q, d) in t.open_reads.iter() {
+        for (q, d, _, _) in t.open_reads.iter() {
             if *q == p {
                 holders.push_str(&format!("T{}(depth {}) ", i, d));
             }
@@ -1714,6 +1848,59 @@ pub fn ev_snap_free(p: usize) {
             log(EV_SNAP_FREE, u64::MAX, 0);
         }
     }
+}
+
+pub fn ev_gen_flip(gen: usize) {
+    let _g = ShimGuard::new();
+    let s = sim();
+    let me = s.cur;
+    s.opseq += 1;
+    let f = s.opseq;
+    let known = s.gen_locs.contains_key(&gen);
+    let (prev_flip, stale_close, known_since) = s.gen_locs.get(&gen).copied().unwrap_or((0, 0, f));
+    let mut pending = 0u32;
+    let mut clean = true;
+    let mut any_open = false;
+    for (i, t) in s.threads.iter().enumerate() {
+        for (_, d, gl, gq) in t.open_reads.iter() {
+            any_open = true;
+            if *gl == gen {
+                // the writer's own nested deliveries are synchronous: never still open here
+                let _ = (i, d);
+                pending += 1;
+                if *gq < prev_flip {
+                    clean = false; // a late reader of an older generation may sit in the other slot
+                }
+            } else if *gl == 0 {
+                clean = false; // a section whose generation sample we did not see
+            }
+        }
+        if let Some((gl, gq)) = t.sampling {
+            if gl == gen {
+                pending += 1;
+                if gq < prev_flip {
+                    clean = false;
+                }
+            }
+        }
+    }
+    if !known && any_open {
+        clean = false;
+    }
+    // a thread that entered its handler before samples of this counter were observed may have
+    // sampled it unseen
+    for (i, t) in s.threads.iter().enumerate() {
+        if i != me && t.handler_n > 0 && t.handler_entry_opseq <= known_since {
+            clean = false;
+        }
+    }
+    if stale_close > s.threads[me].store_begin_seq {
+        clean = false; // a late reader left the other slot after this writer's first look at it
+    }
+    s.gen_locs.insert(gen, (f, stale_close, known_since));
+    let armed = pending == 0;
+    let own0 = s.threads[me].own_steps0;
+    s.threads[me].flip_watch = Some(FlipWatch { gen, flip: f, clean, pending, armed, own0_at_arm: own0 });
 }
 
 pub fn ev_cell_access(p: usize, is_write: bool) {
@@ -1823,6 +2010,7 @@ pub fn deliver(sig: i32, info: *mut libc::siginfo_t, ctx: *mut libc::c_void) -> 
         }
         if t.handler_n == 0 {
             t.handler_entry_own = t.own_steps;
+            t.handler_entry_opseq = s.opseq;
         }
         t.handler_n += 1;
         count(C_DELIVERIES, 1);
